@@ -629,6 +629,9 @@ func (pc *parentController) syncParentObject(parent *unstructured.Unstructured) 
 		if err != nil {
 			return fmt.Errorf("can't remove finalizer for %v %v/%v: %w", parent.GetKind(), parent.GetNamespace(), parent.GetName(), err)
 		}
+		// updatedParent is a live read; keep reporting the generation that was
+		// actually sent to the hook as status.observedGeneration.
+		updatedParent.SetGeneration(parent.GetGeneration())
 		parent = updatedParent
 	}
 
